@@ -23,6 +23,7 @@ class QResult:
     self.live_trace = []
     self.instrumented = None
     self.nqueries = 0
+    self.trace_error = None
     self.cur_after_queries = []     # (number of steps run so far, current_state() asked right after client queries)
 
 
@@ -74,30 +75,33 @@ def run(spec, start, ext_ops, cfg, pre_start_ops=(), max_steps=400, query_rng=No
   chart.register_live_spy_callback(res.live_spy.append)
   chart.register_live_trace_callback(res.live_trace.append)
   try:
+    if is_ao and cfg.get('pre_subscribe'):
+      # the object subscribes BEFORE start_at: a SUBSCRIBE_META_SIGNAL event is posted lifo and is the first event it dispatches
+      chart.subscribe(Event(signal='VT_PRE_SUB'), queue_type=cfg['pre_subscribe'])
     for kind, sig in pre_start_ops:
       (chart.post_fifo if kind == 'fifo' else chart.post_lifo)(Event(signal=sig))
+    st = []
     try:
-      chart.start_at(run_.fns[start])
+      # an active object must not begin its first step before the start snapshot has been taken (its next_rtc passes the gate)
+      with gate:
+        chart.start_at(run_.fns[start])
+        res.instrumented = chart.instrumented
+        snapshot(chart, st)
+        res.start = st[0]
     except cg.Budget:
       res.error = ('Budget', -1)
       return res
     except Exception as ex:
       res.error = ('%s: %s' % (type(ex).__name__, ex), -1)
       return res
-    res.instrumented = chart.instrumented
-    if is_ao:
-      # start_at may already have left events in the queue (posts made by entry
-      # actions); the object's thread handles them on its own
-      pass
-    st = []
-    if not is_ao:
-      snapshot(chart, st)
-      res.start = st[0]
-    else:
-      # the start snapshot of an active object is only stable when nothing was
-      # posted during start_at; callers use specs without start-time posts then
-      snapshot(chart, st)
-      res.start = st[0]
+    if is_ao and (cfg.get('pre_subscribe') or pre_start_ops):
+      # events queued before start_at: the object's thread works through them on its own
+      while len(chart.queue) != 0 or chart._vt_busy:
+        if not sem.acquire(timeout=20):
+          raise Inconclusive('active object did not finish a step within 20 s')
+        if chart._vt_exc is not None:
+          res.error = ('%s: %s' % (type(chart._vt_exc).__name__, chart._vt_exc), len(res.steps))
+          return res
 
     def drain():
       if is_ao:
@@ -168,7 +172,11 @@ def run(spec, start, ext_ops, cfg, pre_start_ops=(), max_steps=400, query_rng=No
       res.spy_full = list(chart.full.spy)
       res.trace_records = [(t.start_state, t.signal, t.end_state) for t in chart.full.trace]
       res.trace_tuples = list(chart.full.trace)
-      res.trace_text = chart.trace()
+      try:
+        res.trace_text = chart.trace()
+      except Exception as ex:
+        # formatting the trace is C20/C32's business: recorded, decided by the trace oracle
+        res.trace_text, res.trace_error = None, '%s: %s' % (type(ex).__name__, ex)
     res.chart = chart
     return res
   finally:
